@@ -537,6 +537,10 @@ fn recover(
         }
     }
 
+    // The pages replayed above must be durable before the WAL, their only other copy, is
+    // discarded.
+    ht_fd.sync_all()?;
+
     // Finally, we collapse the WAL file and fsync.
     writeout::truncate_wal(wal_fd, true)?;
 
